@@ -38,6 +38,36 @@ func main() {
 				fmt.Println(run.Output)
 			}
 		}
+	case "sweep":
+		// hvc sweep control|value: run the runtime-checked build over a corpus and print the distinct failures
+		var c []string
+		if len(os.Args) > 2 && os.Args[2] == "value" {
+			c = valueCorpus()
+		} else {
+			c = controlCorpus()
+		}
+		if pp, perr := loadProg("/repo"); perr == nil {
+			computeRacOldTypes(pp)
+		}
+		run, err := runRAC("/repo", c, "lex,parse,analyze,run", 900*time.Second)
+		if err != nil {
+			fmt.Println("error:", err)
+		}
+		if run != nil {
+			seen := map[string]int{}
+			for i := range c {
+				for _, ln := range run.ByInput[i] {
+					if strings.HasPrefix(ln, "RAC-INFO") {
+						continue
+					}
+					if _, ok := seen[ln]; !ok {
+						seen[ln] = i
+						fmt.Printf("%s\n    first on input %d: %q\n", ln, i, c[i])
+					}
+				}
+			}
+			fmt.Printf("sweep: %d inputs, %d distinct failure lines\n", len(c), len(seen))
+		}
 	case "corpus":
 		// hvc corpus control|value [n]: print corpus programs (debugging aid)
 		var c []string
